@@ -13,9 +13,9 @@ ASSUMPTIONS = [
     "(p, n, N) with p+n<=N; FCR/NCPR/Fplus/Fminus/phasePlotRegion are encoded from their source in the solver's IEEE-754 binary64 theory "
     "(round-to-nearest-even division, exact comparisons against the source's literals)",
 ]
-OUTSIDE = ["N above the bounds (seq: see bounds; fp: N > 400 -- N <= 1000 was decided once by cvc5 in 106 s on a hand-written query during the design phase, but the per-path encoding needs > 1 h for it)"]
-NMAX = {"quick": 10, "thorough": 20}
-FPMAX = {"quick": 100, "thorough": 400}
+OUTSIDE = ["N above the bounds (seq: see bounds; fp: N > 200 -- N <= 1000 was decided once by cvc5 in 106 s on a hand-written query during the design phase, but the per-path encoding needs > 1 h for it)"]
+NMAX = {"quick": 10, "thorough": 16}
+FPMAX = {"quick": 100, "thorough": 200}
 ITEM_TIMEOUT = {"quick": 400, "thorough": 3000}
 
 
